@@ -4,6 +4,7 @@ import coqgen as g
 import catchgen as cg
 
 HEADER = cg.HEADER + "From Crem Require Import Limits LimitsCorr.\n"
+CHEADER = cg.HEADER + "From Crem Require Import Limits NdArchive Compose ComposeCorr.\n"
 
 
 def limit(l):
@@ -26,6 +27,15 @@ def runcase(c):
     return "(mkRun %s %s %s)" % (g.b(c["family"] == "kirkpatrick"), limit(c["limit"]), g.lst([boundary(b) for b in c["trace"]]))
 
 
+def cstep(c):
+    arch = g.lst(["(%s, %s)" % (cg.bits(e["bits"]), g.lst([g.z(v) for v in e["vals"]])) for e in c["arch"]])
+    return "(mkCS %s %s %s %s %s)" % (cg.bits(c["cand"]), g.b(c["accepted"]), g.b(c["rtb"]), cg.bits(c["cur"]), arch)
+
+
+def crun(c):
+    return "(mkCRun %s %s %s)" % (limit(c["limit"]), cg.bits(c["start"]), g.lst([cstep(x) for x in c["steps"]]))
+
+
 def run(ctx):
     ctx.build_harness()
     lines = ctx.run_harness("C03", [ctx.tier], timeout=3000)
@@ -35,6 +45,7 @@ def run(ctx):
         if l.get("kind") == "stat":
             ctx.stats = l["stats"]
     ctx.check_theorems("Properties/C03.v")
+    ctx.check_theorems("Properties/Composed.v")
     ds = [l for l in lines if l.get("kind") == "dataset"][0]
     loops = [l for l in lines if l.get("kind") == "case" and l["sub"] == "loop"]
     runs = [l for l in lines if l.get("kind") == "case" and l["sub"] == "run"]
@@ -50,6 +61,14 @@ def run(ctx):
         body += "Definition cases : list runcase := %s.\n" % g.lst([runcase(c) for c in sh])
         body += "Definition M := Eval vm_compute in (if wf_dataset d then bool_mismatches (check_run d) cases 0 else [9999%nat]).\nPrint M.\n"
         jobs.append(("cases_C03_run_%d" % k, body, "correspondence:C03:run-%s:%d" % (sh[0]["family"], k), sh))
+
+    cruns = [l for l in lines if l.get("kind") == "case" and l["sub"] == "crun"]
+    for k, c in enumerate(cruns):
+        body = CHEADER + "Definition d : dataset :=\n  %s.\n" % dterm
+        body += "Definition r : crun := %s.\n" % crun(c)
+        body += "Definition R := Eval vm_compute in (if wf_dataset d then check_crun d r else Some 9999%nat).\nPrint R.\n"
+        body += "Definition M := Eval vm_compute in (match R with None => [] | Some k => [k] end).\nPrint M.\n"
+        jobs.append(("cases_C03_crun_%d" % k, body, "correspondence:C03:composed-multi-objective-run:%d" % k, [c]))
 
     def one(job):
         name, body, label, sh = job
